@@ -79,6 +79,8 @@ type Env struct {
 	CDC   *server.MetaCDC
 	Cfg   *server.CDCServerConfig
 
+	Gate  *Gate
+
 	mu    sync.Mutex
 	parts []*Parts
 }
@@ -99,7 +101,7 @@ func NewEnv(store *Store) *Env {
 		Retry:  config.RetrySettings{RetryTimes: 3, InitBackOff: 1, MaxBackOff: 1},
 		Packer: msgpacker.PackerConfig{TimerInterval: 1, MaxCount: 1},
 	}
-	env := &Env{Store: store, Cfg: cfg}
+	env := &Env{Store: store, Cfg: cfg, Gate: NewGate()}
 	env.CDC = server.NewMetaCDCForVerif(cfg, store, nil)
 	envMu.Lock()
 	envOf[env.CDC] = env
@@ -117,6 +119,7 @@ func (env *Env) Forget() {
 func (env *Env) newParts(info *meta.TaskInfo) (*server.VerifEntityParts, error) {
 	uKey := info.MilvusConnectParam.URI
 	p := &Parts{Target: uKey, TT: NewDispatch(), RPC: NewDispatch(), MetaOp: NewMetaOp(), Data: &DataHandler{}}
+	p.TT.gate = env.Gate
 	replicateMeta, err := coremeta.NewReplicateMetaImpl(env.Store.GetReplicateStore(context.Background()))
 	if err != nil {
 		return nil, err
@@ -264,7 +267,8 @@ type G struct {
 	Plan   string
 	Task   string
 	Class  string // first repository function on the stack (innermost)
-	Poller bool   // sleeping in replicateChannelManager.GetChannelChan
+	Poller bool   // inside replicateChannelManager.GetChannelChan
+	Asleep bool   // innermost frame is time.Sleep (cannot end before its timer fires)
 	Task1  bool   // belongs to a class that is known to be per task (streams, barriers, channel reader)
 	Waiter bool   // error waiter of startInternal: parked on the reader's error channel (not an active reader)
 }
@@ -303,6 +307,7 @@ func Census() []G {
 			continue
 		}
 		g := G{}
+		seenFrame := false
 		fmt.Sscanf(m[1], "%d", &g.Count)
 		for _, ln := range lines[1:] {
 			if strings.HasPrefix(ln, "# labels:") {
@@ -321,6 +326,10 @@ func Census() []G {
 				continue
 			}
 			fn := fm[1]
+			if !seenFrame {
+				seenFrame = true
+				g.Asleep = fn == "time.Sleep"
+			}
 			if !strings.HasPrefix(fn, repoPrefix) {
 				continue
 			}
